@@ -50,7 +50,7 @@ pub fn doc_field(k: usize) -> P {
 pub fn doc_tails() -> Vec<Vec<P>> {
     let pos = |mv: &str, help: Option<&str>, strict: Strict| P::Pos { ty: Ty::Os, strict, metavar: mv.into(), help: help.map(DocSpec::plain) };
     let mut sub = Opts::new(P::Seq(vec![P::Switch(h(Names::both('x', "xray"), "inner switch")), P::Switch(h(Names::short('y'), "inner hidden")).hide(), pos("INNERPOS", Some("inner positional"), Strict::Any).opt()]));
-    sub.cfg.descr = Some(DocSpec::plain("inner command description\n\nmore about it"));
+    sub.cfg.descr = Some(DocSpec::plain("inner commánd déscription — ünïcode\n\nmore about it"));
     sub.cfg.header = Some(DocSpec::plain("inner header text"));
     let mut deep = Opts::new(P::Seq(vec![arg_plain("zulu", "deepest argument")]));
     deep.cfg.descr = Some(DocSpec::plain("deepest level"));
